@@ -30,6 +30,8 @@ BUILTIN_NAMES = {'isinstance', 'len', 'str', 'int', 'bool', 'list', 'dict', 'tup
 class Engine:
     def __init__(self, repo_root, registry, opts=None):
         self.repo = Repo(repo_root)
+        for sl in getattr(registry, 'slices', []):
+            self.repo.add_slice(**sl)
         self.registry = registry
         self.opts = opts or {}
         self.trivial = 0
